@@ -29,6 +29,8 @@ enum Kind {
     SetProbe(u8),
     GetAll,
     GetPlain,
+    /// a `&mut self` (true) or `&self` (false) handler that removes its own interface
+    CloseSelf(bool),
 }
 
 #[derive(Clone, Debug, Serialize, Deserialize, PartialEq)]
@@ -46,7 +48,7 @@ impl Scenario for C30Scn {
         "C30"
     }
     fn rule(&self) -> &'static str {
-        "a server interface whose method handlers, property getter and property setter register / remove objects and emit signals through the object server; 1..2 real client tasks issue 1..5 calls each (methods, Properties.Get/Set/GetAll); in the lazy variant the connection has no object server until the server task calls object_server().at() and only after that has returned (simulator event order) do the clients start; no timeouts are configured, so a deadlock or a lost wake-up shows as quiescence with an unanswered call; non-trivial = the run contains a handler that re-enters the object server, or the lazy variant"
+        "a server interface whose method handlers, property getter and property setter register / remove objects (including, from `&self` and `&mut self` handlers, their own interface) and emit signals through the object server; 1..2 real client tasks issue 1..5 calls each (methods, Properties.Get/Set/GetAll); in the lazy variant the connection has no object server until the server task calls object_server().at() and only after that has returned (simulator event order) do the clients start; no timeouts are configured, so a deadlock or a lost wake-up shows as quiescence with an unanswered call; non-trivial = the run contains a handler that re-enters the object server, or the lazy variant"
     }
     fn runs(&self, tier: Tier) -> u64 {
         match tier {
@@ -67,13 +69,14 @@ impl Scenario for C30Scn {
             .map(|_| {
                 (0..rng.range(1, 5))
                     .map(|_| {
-                        let k = match rng.below(9) {
+                        let k = match rng.below(10) {
                             0 | 1 => Kind::AddChild(rng.below(3) as u8),
                             2 => Kind::RemoveChild(rng.below(3) as u8),
                             3 => Kind::Emit,
                             4 | 5 => Kind::GetProbe,
                             6 => Kind::SetProbe(rng.below(4) as u8),
                             7 => Kind::GetAll,
+                            8 if rng.chance(1, 3) => Kind::CloseSelf(rng.chance(2, 3)),
                             _ => Kind::GetPlain,
                         };
                         (k, rng.below(3) as u8)
@@ -179,6 +182,7 @@ impl Scenario for C30Scn {
                         Kind::GetPlain => conn.call_method(None::<&str>, "/h", Some(props), "Get", &("org.sim.H", "Plain")).await.map(|m| format!("{:?}", m.body().deserialize::<OwnedValue>().map(|_| ()))),
                         Kind::SetProbe(v) => conn.call_method(None::<&str>, "/h", Some(props), "Set", &("org.sim.H", "Probe", ZValue::from(v as u32))).await.map(|_| "set".to_string()),
                         Kind::GetAll => conn.call_method(None::<&str>, "/h", Some(props), "GetAll", &("org.sim.H",)).await.map(|_| "all".to_string()),
+                        Kind::CloseSelf(m) => conn.call_method(None::<&str>, "/h", Some("org.sim.H"), if m { "Close" } else { "Detach" }, &()).await.map(|m| format!("{:?}", m.body().deserialize::<bool>())),
                     };
                     results.lock().unwrap()[idx].3 = Some(res.map_err(|e| e.to_string()));
                 }
@@ -190,6 +194,7 @@ impl Scenario for C30Scn {
         drop(server);
         drop(client);
 
+        let closes = p.clients.iter().flatten().any(|c| matches!(c.0, Kind::CloseSelf(_)));
         for (ci, k, kind, r) in &res {
             match r {
                 None => {
@@ -200,6 +205,8 @@ impl Scenario for C30Scn {
                         Kind::AddChild(_) | Kind::RemoveChild(_) => "method-reentering-server",
                         Kind::Emit => "method-emitting-signal",
                         Kind::GetPlain => "plain-get",
+                        Kind::CloseSelf(true) => "mut-handler-removing-its-own-interface",
+                        Kind::CloseSelf(false) => "handler-removing-its-own-interface",
                     };
                     let first = *k == 0 && p.lazy;
                     return Verdict::fail(
@@ -208,6 +215,8 @@ impl Scenario for C30Scn {
                         format!("client {ci} call {k} {kind:?} was never answered (lazy = {}); all: {res:?}", p.lazy),
                     );
                 }
+                // once the interface removed itself, calls to it legitimately fail with Unknown*
+                Some(Err(e)) if closes && (e.contains("UnknownObject") || e.contains("UnknownInterface") || e.contains("UnknownMethod")) => {}
                 Some(Err(e)) => return Verdict::fail("error", "call-failed", format!("client {ci} call {k} {kind:?} failed: {e}")),
                 Some(Ok(_)) => {}
             }
